@@ -524,6 +524,93 @@ def secondary(R, mp, strings, rng):
             R.disagree(what, {"string": s}, got, e)
 
 
+# ------------------------------------------------------------------ history / aliasing
+def history_probe(R, ck, mp, samples, rng):
+    """the stated route for EVERY call, whatever happened before: (a) the value returned by one call
+    is mutated (as LogixDriver._initialize_driver does to the stored list for a Micro800), the next
+    call for the same string must still give the stated route; (b) a second driver built from the
+    same string after the first one stripped its stored route.  The model is a pure function, so the
+    model's outcome for the string is also what every later call must give (correspondence)."""
+    from unittest import mock
+    from pycomm3 import CIPDriver, LogixDriver, SLCDriver
+    from pycomm3.cip.data_types import PADDED_EPATH, PortSegment
+    from pycomm3.cip_driver import parse_connection_path
+
+    def enc(route):
+        try:
+            return ("ok", bytes(PADDED_EPATH.encode(route, length=True, pad_length=True)))
+        except Exception as ex:
+            return ("err", exc_code(ex))
+
+    def micro800_init(drv):
+        """run the real _initialize_driver against a canned Micro800 identity (no network)"""
+        try:
+            with mock.patch.object(type(drv), "_list_identity", return_value={"product_name": "2080-LC50-48QWB"}), \
+                    mock.patch.object(type(drv), "get_plc_info", return_value={"revision": {"major": 12, "minor": 11}}), \
+                    mock.patch.object(type(drv), "get_plc_name", return_value="x"), \
+                    mock.patch.object(type(drv), "get_tag_list", return_value=[]):
+                drv._initialize_driver(init_tags=False, init_program_tags=False)
+            return "real"
+        except Exception:
+            cp = drv._cfg["cip_path"]
+            if cp and isinstance(cp[-1], PortSegment):
+                cp.pop(-1)
+            return "emulated"
+
+    lines = [cmd_line("outcome", s, auto, 1) for _, _, s, auto, _ in samples]
+    outs = mp.batch(lines)
+    for (ast, sp, s, auto, hs), o in zip(samples, outs):
+        want = ("ok", ast["host"], ast["tcp"], ref_wire(hs, True))
+        m = canon_model_outcome(fw.parse_line(o))
+        case = {"path": s, "auto_slot": bool(auto), "pad_length": True, "origin": "history"}
+        # (a) mutate what a first call returned, call again
+        for how in ("pop", "clear", "append"):
+            try:
+                r1 = parse_connection_path(s, bool(auto))
+                if how == "pop" and r1[2]:
+                    r1[2].pop(-1)
+                elif how == "clear":
+                    r1[2].clear()
+                elif how == "append":
+                    r1[2].append(PortSegment("bp", 9))
+            except Exception:
+                pass
+            i = impl_outcome(s, auto, 1)
+            R.case((s, auto, "history", how))
+            R.count("history", "reparse_after_" + how)
+            R.corr_checked += 1
+            if not same_outcome(m, i):
+                R.disagree("parse_connection_path called again after its earlier result was mutated (the model is a pure function)", dict(case, mutation=how), m, i)
+            if i != want:
+                ck.fail("the same path string no longer yields the stated route after an earlier result was modified in place",
+                        dict(case, mutation=how), i, want, "history:reparse")
+        # (b) two drivers from the same string; the first strips its route as for a Micro800
+        first = LogixDriver if auto else CIPDriver
+        try:
+            d1 = first(s)
+            mode = micro800_init(d1) if first is LogixDriver else None
+            if first is CIPDriver and d1._cfg["cip_path"]:
+                d1._cfg["cip_path"].pop(-1)
+        except Exception as ex:
+            ck.fail("driver constructor raised on a grammar string", case, type(ex).__name__, "a driver", "history:ctor")
+            continue
+        R.count("history", f"first_driver_{first.__name__}_{mode}")
+        for second in ((LogixDriver, SLCDriver) if auto else (CIPDriver,)):
+            try:
+                d2 = second(s)
+                got = ("ok", d2._cfg["ip address"], d2._cfg["port"], enc(d2._cfg["cip_path"]))
+            except Exception as ex:
+                got = ("err", exc_code(ex))
+            exp = ("ok", ast["host"], ast["tcp"] or TCP_DEFAULT, ("ok", ref_wire(hs, True)))
+            R.case((s, auto, "history", second.__name__))
+            R.corr_checked += 1
+            if m[0] == "ok" and got != ("ok", m[1], m[2] or TCP_DEFAULT, ("ok", m[3])):
+                R.disagree(f"{second.__name__}(path) after an earlier driver for the same path stripped its stored route", case, m, got)
+            if got != exp:
+                ck.fail("a second driver built from the same path string does not store the stated route",
+                        dict(case, first_driver=first.__name__, second_driver=second.__name__), got, exp, "history:second_driver")
+
+
 # ------------------------------------------------------------------ corpus
 def load_corpus():
     d = os.path.join(fw.VERIF, "corpus", "C15")
@@ -542,7 +629,7 @@ def run(R, escalate=False):
               "or the slot shortcut; ports by every documented alias or number; links 0..255 or dotted quads) x 3+ spellings "
               "(separator per position, alias per hop, leading zeros) x auto_slot {F,T} x pad_length {F,T}; constructed members of "
               "each rejection class; ALL single-character deletions / insertions / replacements (23-symbol alphabet) / "
-              "transpositions of valid strings; a free malformed stream; non-trivial = distinct (string, auto_slot, pad_length)")
+              "transpositions of valid strings; a free malformed stream; history probes (re-parse after the earlier result was mutated in place; a second driver after the first stripped its route as for a Micro800); non-trivial = distinct (string, auto_slot, pad_length)")
     mp = fw.ModelProc("C15")
     try:
         ck = Checker(R, mp)
@@ -600,6 +687,18 @@ def run(R, escalate=False):
             R.evaluations += 1
             if len(outsi) != 1:
                 ck.fail("spellings of one route give different results", {"strings": ss, "auto_slot": bool(auto)}, [repr(x) for x in outsi], "one result", "spellings")
+
+        # ---------------- history / aliasing: the same string again, after an earlier result was modified
+        hist = []
+        pool = [(a, sp, s0) for a, sp, s0 in valid_strings]
+        rng.shuffle(pool)
+        shortcuts = [x for x in pool if x[0]["shape"][0] == "S" or not x[0]["shape"][1]]
+        for ast, sp, s0 in shortcuts[: (300 if thorough else 60)] + pool[: (1200 if thorough else 140)]:
+            for auto in (0, 1):
+                hs = hops_of(ast, auto)
+                if hs is not None:
+                    hist.append((ast, sp, s0, auto, hs))
+        history_probe(R, ck, mp, hist, rng)
 
         # ---------------- rejection classes by construction
         for ast, sp, s in rng.sample(valid_strings, min(len(valid_strings), 600 if thorough else 150)):
